@@ -234,6 +234,25 @@ def _s20(s):
             call('decl', I(L1)), call('decl', I(L2)), op(None, I(L1)), op(I(L2), None)]
 
 
+@skeleton('rep-count-from-a-parameter', 3, lambda s: True)
+def _s21(s):
+    P, It, L = s
+    # the repeat COUNT is computed from the macro's parameter (the only use of the parameter), the arguments use the iterator; the
+    # iterator may be spelled like the parameter: inside the count the name still means the parameter
+    return [mdef('leaf', ['x'], body=[op(None, I('x'))]),
+            mdef('fill', [P], body=[rep(I(P), It, 'leaf', ('*', I(It), W))]),
+            mdef('fill2', [P], ['t'], body=[lab('t'), rep(('-', I(P), 1), It, 'leaf', ('+', I('t'), I(It)))]),
+            lab(L), call('fill', 2), call('fill2', 3), call('fill', 0), op(None, I(L))]
+
+
+# skeletons whose programs raise no assembler warning for ANY assignment of the names (on the unchanged tree): they must also assemble
+# with warnings treated as errors, which is the default of the fj command and of the API
+WARNING_FREE = {'arity-overloading', 'dollar', 'globals-and-externs', 'guarded-recursion', 'iterator-like-own-parameter-used-later',
+                'local-passed-down-and-label-through-parameter', 'local-vs-argument', 'nested-argument-capture', 'nested-rep',
+                'param-vs-caller-label', 'parameters-in-pad-and-wflip', 'relative-names-climbing-to-the-root', 'rep-counts',
+                'rep-iterator-vs-names', 'rep-that-does-not-use-its-iterator', 'three-levels-same-names', 'rep-count-from-a-parameter'}
+
+
 def programs(pool=POOL):
     """yield (skeleton name, slots, program, collisions) for every well-formed assignment"""
     for name, n, wf, build in SKELETONS:
